@@ -3,6 +3,6 @@ CONSTANTS
   T <- TraceT
   StrictA = FALSE
   CheckCat = FALSE
-INVARIANTS ColdEqualsWarm ColdWellFormed
+INVARIANTS ColdEqualsWarm ColdWellFormed ReencodesExactly FlagsTruthful
 POSTCONDITION TraceAccepted
 CHECK_DEADLOCK FALSE
